@@ -16,14 +16,14 @@ theorem C05_extension (st : Bool) (t : Ty) (p s r : Bytes) (v : Val)
 /-- Exact consumption: one value is read from the front of a buffer and exactly its bytes
 are consumed. -/
 theorem C05_exact_consumption_partial (st : Bool) (t : Ty) (v : Val) (bs rest : Bytes)
-    (hp : plain t = true) (hw : WfTy t = true) (hv : HasTy t v = true) (he : toVec t v = .ok bs) :
+    (hp : keysOk t = true) (hw : WfTy t = true) (hv : HasTy t v = true) (he : toVec t v = .ok bs) :
     deserialize st t (bs ++ rest) = .ok (canon t v, rest) :=
   C01_roundtrip_stream_partial st t v bs rest hp hw hv he
 
 /-- Values written back to back are read back in order by successive decodes. -/
 theorem C05_stream_partial (st : Bool) :
     ∀ (tvs : List (Ty × Val × Bytes)) (rest : Bytes),
-      (∀ x ∈ tvs, plain x.1 = true ∧ WfTy x.1 = true ∧ HasTy x.1 x.2.1 = true ∧
+      (∀ x ∈ tvs, keysOk x.1 = true ∧ WfTy x.1 = true ∧ HasTy x.1 x.2.1 = true ∧
         toVec x.1 x.2.1 = .ok x.2.2) →
       deserializeMany st (tvs.map (·.1)) ((tvs.map (·.2.2)).flatten ++ rest) =
         .ok (tvs.map (fun x => canon x.1 x.2.1), rest) := by
@@ -41,7 +41,7 @@ theorem C05_stream_partial (st : Bool) :
 
 /-- Every whole-input entry point rejects bytes left over after the value. -/
 theorem C05_trailing_rejected_partial (st : Bool) (t : Ty) (v : Val) (bs x : Bytes)
-    (hp : plain t = true) (hw : WfTy t = true) (hv : HasTy t v = true) (he : toVec t v = .ok bs)
+    (hp : keysOk t = true) (hw : WfTy t = true) (hv : HasTy t v = true) (he : toVec t v = .ok bs)
     (hx : x ≠ []) :
     fromSlice st t (bs ++ x) = .err eNotAllBytesRead := by
   unfold fromSlice
@@ -53,7 +53,7 @@ theorem C05_trailing_rejected_partial (st : Bool) (t : Ty) (v : Val) (bs x : Byt
 /-- Every proper prefix of a valid encoding is rejected (by `deserialize`, hence by every
 entry point built on it).  Needs no bijectivity: it follows from extension + exact consumption. -/
 theorem C05_prefix_rejected_partial (st : Bool) (t : Ty) (v : Val) (p q : Bytes)
-    (hp : plain t = true) (hw : WfTy t = true) (hv : HasTy t v = true)
+    (hp : keysOk t = true) (hw : WfTy t = true) (hv : HasTy t v = true)
     (he : toVec t v = .ok (p ++ q)) (hq : q ≠ []) :
     (deserialize st t p).isOk = false := by
   cases h : deserialize st t p with
